@@ -470,3 +470,48 @@ package server
 //@ assume func (*raftNode).getCommitIndex
 //@   modifies nothing
 //@   ensures result < 18446744073709551615
+
+// ---------------------------------------------------------------------------------------------
+// Subscriptions deliver exactly the requested range (property C10)
+//@ ghost var oldestSeen int64
+//@ ghost var newestSeen int64
+//@ ghost var tsOffset int64
+//@ ghost var roSeen bool
+
+// start position -> start offset (never negative)
+//@ func (*partition).getStartOffset serves C10
+//@   returns (start, st)
+//@   requires p != nil && req != nil
+//@   ghost after call OldestOffset: ghost.oldestSeen := ret0
+//@   ghost after call NewestOffset: ghost.newestSeen := ret0
+//@   ghost after call EarliestOffsetAfterTimestamp: ghost.tsOffset := ret0
+//@   call EarliestOffsetAfterTimestamp requires [requested-timestamp] arg1 == req.StartTimestamp
+//@   ensures [offset] st == nil && req.StartPosition == client.StartPosition_OFFSET ==> start == (req.StartOffset < 0 ? 0 : req.StartOffset)
+//@   ensures [earliest] st == nil && req.StartPosition == client.StartPosition_EARLIEST ==> start == (ghost.oldestSeen < 0 ? 0 : ghost.oldestSeen)
+//@   ensures [latest] st == nil && req.StartPosition == client.StartPosition_LATEST ==> start == (ghost.newestSeen < 0 ? 0 : ghost.newestSeen)
+//@   ensures [new-only] st == nil && req.StartPosition == client.StartPosition_NEW_ONLY ==> start == (ghost.newestSeen + 1 < 0 ? 0 : ghost.newestSeen + 1)
+//@   ensures [timestamp] st == nil && req.StartPosition == client.StartPosition_TIMESTAMP ==> start == (ghost.tsOffset < 0 ? 0 : ghost.tsOffset)
+//@   ensures [unknown-refused] req.StartPosition != client.StartPosition_OFFSET && req.StartPosition != client.StartPosition_EARLIEST && req.StartPosition != client.StartPosition_LATEST && req.StartPosition != client.StartPosition_NEW_ONLY && req.StartPosition != client.StartPosition_TIMESTAMP ==> st != nil
+
+// stop position -> stop offset (-1 = keep waiting; a read-only partition ends at the end of the log)
+//@ func (*partition).getStopOffset serves C10
+//@   returns (stop, st)
+//@   requires p != nil && req != nil
+//@   ghost after call NewestOffset: ghost.newestSeen := ret0
+//@   ghost after call IsReadonly: ghost.roSeen := ret0
+//@   ghost after call LatestOffsetBeforeTimestamp: ghost.tsOffset := ret0
+//@   call LatestOffsetBeforeTimestamp requires [requested-timestamp] arg1 == req.StopTimestamp
+//@   ensures [on-cancel] st == nil && req.StopPosition == client.StopPosition_STOP_ON_CANCEL ==> stop == (ghost.roSeen ? ghost.newestSeen : -1)
+//@   ensures [offset] st == nil && req.StopPosition == client.StopPosition_STOP_OFFSET ==> stop == req.StopOffset
+//@   ensures [latest] st == nil && req.StopPosition == client.StopPosition_STOP_LATEST ==> stop == ghost.newestSeen && stop != -1
+//@   ensures [timestamp] st == nil && req.StopPosition == client.StopPosition_STOP_TIMESTAMP ==> stop == ghost.tsOffset
+//@   ensures [unknown-refused] req.StopPosition != client.StopPosition_STOP_ON_CANCEL && req.StopPosition != client.StopPosition_STOP_OFFSET && req.StopPosition != client.StopPosition_STOP_LATEST && req.StopPosition != client.StopPosition_STOP_TIMESTAMP ==> st != nil
+
+// the subscribe loop: what is sent to the subscriber is the reader's message at the reader's offset,
+// inside the requested range, and (on encrypted streams) the decrypted value
+//@ ghost var opened set[[]byte]
+//@ func (*partition).newSubscribeLoop$1 serves C10, C17
+//@   ghost after call Read: ghost.opened[ret0] := ghost.opened[ret0] || ret1 == nil
+//@   call send.ch requires [reader-offset] arg1.Offset == offset && arg1.Timestamp == timestamp
+//@   call send.ch requires [within-range] stopOffset == -1 || arg1.Offset <= stopOffset
+//@   call send.ch requires [decrypted] p.encryptionHandler == nil || ghost.opened[arg1.Value]
